@@ -20,12 +20,15 @@
                                   (start of log, or any later event boundary with the crc committed there) the reader delivers
                                   exactly the events appended afterwards, in order, at the offsets the writer assigned, crc
                                   records (at any `crcEvery`) included, and ends at the writer's position and crc
-    * `truncate_prefix`           a stream cut at ANY byte offset replays exactly the complete events, never a partial one
     * `commit_monotone`, `commit_all_synced_partial`   writer loop: commit offsets never decrease over any schedule of appends and
                                   loop iterations; when a commit is issued no written byte is unsynced
-  Partial / not proved (kept as comments at the end): rotation inside the proved stream (multi-file `readAll`), `seek`, and
-  `commit ≤ bytes written` (needs the rotatePos well-formedness invariant). Those are covered by the correspondence and the
-  direct oracle of go/C18 only.
+    * `putLev_no_panic`           after the fix (WriteLoop restores hashBuff2 on restart) no Append ever takes the out-of-range
+                                  slice of the first chunk's md5; the old behaviour panics (`decide` witness at the end)
+  Partial / not proved (kept as comments at the end): `truncate_prefix` (only its step lemma `readStep_event` with arbitrary
+  slack is proved), rotation inside the proved stream (multi-file `readAll`), `seek`, and `commit ≤ bytes written` (needs the
+  rotatePos well-formedness invariant). Those are covered by the correspondence and the direct oracle of go/C18 only
+  (thorough tier: every truncation offset and every single-bit flip of the last two chunks).
+  Known finding `truncated-file-header`: see the `decide` witnesses at the end.
 -/
 import SH.Model.Binlog
 open SH.Binlog
@@ -435,5 +438,297 @@ theorem crc_record_checked {cfg : Cfg} (hupd : ∀ c a b, cfg.upd (cfg.upd c a) 
       simp only [Bool.false_eq_true, if_false, skipLev] at hs'
       split at hs' <;> cases hs'
     · intro hne; exact absurd (by simpa [crcMismatch] using hne) hmm
+
+/-! ### writer loop: commits are monotone; at a commit nothing written is unsynced -/
+
+inductive WOp
+  | put (inOff : Int) (body : Bytes) (asap : Bool) (ts h1 h2 : Nat)     -- Append / AppendASAP with any arguments
+  | iter (timer stop : Bool)                                             -- one writer loop iteration
+
+def sysStep (cfg : Cfg) (s : Sys) : WOp → Sys
+  | .put inOff body asap ts h1 h2 => { s with w := (putLev cfg s.w inOff body asap ts h1 h2).1 }
+  | .iter t st => iter s t st
+
+def run (cfg : Cfg) (s : Sys) (ops : List WOp) : Sys := ops.foldl (sysStep cfg) s
+
+/-- commits (newest first) never decrease and none is ahead of the append position -/
+def CommitInv (s : Sys) : Prop :=
+  s.l.commits.Pairwise (fun a b => b.off ≤ a.off) ∧ ∀ c ∈ s.l.commits, c.off ≤ (s.w.offG : Int)
+
+/-- every rotated-away file is completely covered by an fsync -/
+def OlderSynced (l : LS) : Prop := ∀ f ∈ l.older, f.synced = f.data.length
+
+theorem appendLev_offG (cfg : Cfg) (w : WS) (d : Bytes) : w.offG ≤ (appendLev cfg w d).offG := by
+  simp [appendLev]
+
+theorem putLev_offG (cfg : Cfg) (w : WS) (inOff : Int) (body : Bytes) (asap : Bool) (ts h1 h2 : Nat) :
+    w.offG ≤ (putLev cfg w inOff body asap ts h1 h2).1.offG := by
+  have a := appendLev_offG cfg w body
+  have hc : w.offG ≤ (putCrc cfg w body ts).offG := by
+    simp only [putCrc]; split <;> simp only [addCrc, appendLev] at * <;> omega
+  unfold putLev
+  split
+  · exact Nat.le_refl _
+  · split
+    · exact Nat.le_refl _
+    · simp only []
+      split
+      · exact hc
+      · simp only [putBody]
+        split <;> split <;> simp only [addRotate, appendLev] at * <;> omega
+
+theorem iter_offG (s : Sys) (t st : Bool) : (iter s t st).w.offG = s.w.offG := rfl
+
+theorem writeBuffer_commits (buff : Bytes) : ∀ (ps : List Nat) (l : LS) (prev : Nat), (writeBuffer l buff prev ps).commits = l.commits
+  | [], _, _ => rfl
+  | p :: ps, l, prev => by
+    simp only [writeBuffer]; rw [writeBuffer_commits buff ps]; rfl
+
+theorem written_commits (s : Sys) : (written s).commits = s.l.commits := by
+  unfold written; split
+  · rfl
+  · exact writeBuffer_commits _ _ _ _
+
+theorem writeBuffer_older (buff : Bytes) : ∀ (ps : List Nat) (l : LS) (prev : Nat), OlderSynced l → OlderSynced (writeBuffer l buff prev ps)
+  | [], _, _, h => h
+  | p :: ps, l, prev, h => by
+    simp only [writeBuffer]
+    apply writeBuffer_older buff ps
+    intro f hf
+    simp only [rotateFS, List.mem_cons] at hf
+    rcases hf with rfl | hf
+    · rfl
+    · exact h f hf
+
+theorem written_older (s : Sys) (h : OlderSynced s.l) : OlderSynced (written s) := by
+  unfold written; split
+  · exact h
+  · exact writeBuffer_older _ _ _ _ h
+
+theorem commitInv_step (cfg : Cfg) (s : Sys) (op : WOp) (h : CommitInv s) : CommitInv (sysStep cfg s op) := by
+  cases op with
+  | put inOff body asap ts h1 h2 =>
+    refine ⟨h.1, fun c hc => ?_⟩
+    have := h.2 c hc
+    have m := putLev_offG cfg s.w inOff body asap ts h1 h2
+    simp only [sysStep]; omega
+  | iter t st =>
+    simp only [sysStep, CommitInv, iter_offG]
+    simp only [iter]
+    split
+    · simp only [syncCommit, List.pairwise_cons, List.mem_cons, written_commits]
+      refine ⟨⟨fun c hc => h.2 c hc, h.1⟩, ?_⟩
+      rintro c (rfl | hc)
+      · exact Int.le_refl _
+      · exact h.2 c hc
+    · rw [written_commits]; exact h
+
+/-- **commit_all_synced_partial.**  When an iteration of the writer loop issues a commit, no byte written to any file is left
+    without an fsync (`syncedEnd = writtenEnd`), and this holds again after every later iteration that commits; rotated-away
+    files stay fully synced.  (The missing half of `commit_monotone_le_fsynced`, "the committed offset is not larger than the
+    number of bytes written", needs the well-formedness of `rotatePos` w.r.t. the buffer and is checked by the oracle only.) -/
+theorem commit_all_synced_partial (s : Sys) (t st : Bool) (h : OlderSynced s.l)
+    (hc : (iter s t st).l.commits.length > s.l.commits.length) :
+    syncedEnd (iter s t st).l = writtenEnd (iter s t st).l ∧ OlderSynced (iter s t st).l := by
+  have ho := written_older s h
+  simp only [iter] at hc ⊢
+  split at hc
+  · rename_i hs
+    simp only [hs, if_true]
+    refine ⟨?_, ho⟩
+    simp only [syncedEnd, writtenEnd, syncCommit, FileS.sync]
+    congr 1
+    exact List.map_congr_left (fun f hf => ho f hf) |> congrArg List.sum
+  · simp [written_commits] at hc
+
+/-- **commit_monotone.**  For every schedule of appends (any arguments, accepted or refused) and writer-loop iterations (any
+    timer/stop flags) the sequence of `Engine.Commit` offsets is non-decreasing, and no commit is ahead of the append position. -/
+theorem commit_monotone (cfg : Cfg) (ops : List WOp) (s : Sys) (h : CommitInv s) : CommitInv (run cfg s ops) := by
+  induction ops generalizing s with
+  | nil => exact h
+  | cons op ops ih => exact ih _ (commitInv_step cfg s op h)
+
+
+/-! ### restart inside the first chunk: the Rotate lev never slices hashBuff2 out of range (after the fix) -/
+
+/-- in the first file hashBuff2 covers everything beyond the hash boundary, and offsetLocal is the distance from the file start -/
+def HashInv (cfg : Cfg) (w : WS) : Prop :=
+  w.firstFile = true → w.offL ≤ w.hb2 + (cfg.chunk - hashDataSize) ∧ w.offL = w.offG - w.fileStart ∧ w.fileStart ≤ w.offG
+
+theorem wsInit_hashInv (cfg : Cfg) (pos : Nat) (crc : UInt32) (last : Hdr) (ts : Nat) :
+    HashInv cfg (wsInit cfg true pos crc last ts) := by
+  intro h
+  have h0 : last.pos = 0 := by simpa [wsInit] using h
+  refine ⟨?_, ?_, ?_⟩ <;> simp [wsInit, h0, hashDataSize] <;> omega
+
+theorem appendLev_hashInv (cfg : Cfg) (w : WS) (d : Bytes) (h : HashInv cfg w) : HashInv cfg (appendLev cfg w d) := by
+  intro hf
+  obtain ⟨a, b, c⟩ := h hf
+  simp only [hashDataSize] at a
+  by_cases hb : ((cfg.chunk : Int) - (16384 : Nat) < (w.offL : Int) + ((padded d).length : Nat))
+  · simp only [appendLev, beyondHashBoundary, hashDataSize, hb, decide_true, if_true]
+    omega
+  · simp only [appendLev, beyondHashBoundary, hashDataSize, hb, decide_false, Bool.false_eq_true, if_false]
+    omega
+
+theorem putCrc_hashInv (cfg : Cfg) (w : WS) (body : Bytes) (ts : Nat) (h : HashInv cfg w) : HashInv cfg (putCrc cfg w body ts) := by
+  simp only [putCrc]
+  split
+  · exact appendLev_hashInv cfg _ _ (appendLev_hashInv cfg w body h)
+  · exact appendLev_hashInv cfg w body h
+
+/-- a rotation that is due in a state satisfying the invariant does not hit the out-of-range slice -/
+theorem rotate_no_panic (cfg : Cfg) (w : WS) (h : HashInv cfg w) (hr : needRotate cfg w = true) : hashSlicePanics w = false := by
+  by_cases hf : w.firstFile = true
+  · obtain ⟨a, b, c⟩ := h hf
+    simp only [needRotate, decide_eq_true_eq] at hr
+    simp only [hashDataSize] at a
+    by_cases h1 : 2 * hashDataSize - levRotateSize ≤ w.offL
+    · have h2 : ¬ (w.hb2 < hashDataSize - levRotateSize) := by
+        simp only [hashDataSize, levRotateSize] at *; omega
+      simp [hashSlicePanics, h2]
+    · simp [hashSlicePanics, h1]
+  · simp [hashSlicePanics, hf]
+
+/-- **append_never_panics (fixed code).**  A writer started by `wsInit … restoreTail := true` (WriteLoop re-reads the tail of the
+    first chunk) satisfies `HashInv`; every accepted append keeps it; hence no `Append` ever takes the panicking slice. -/
+theorem putLev_no_panic (cfg : Cfg) (w : WS) (inOff : Int) (body : Bytes) (asap : Bool) (ts h1 h2 : Nat) (h : HashInv cfg w) :
+    (putLev cfg w inOff body asap ts h1 h2).2.1 ≠ .panic ∧ HashInv cfg (putLev cfg w inOff body asap ts h1 h2).1 := by
+  by_cases hs : w.stopped = true
+  · simp only [putLev, hs, if_true]; exact ⟨by simp, h⟩
+  · have hs' : w.stopped = false := by simpa using hs
+    by_cases ho : inOff ≠ (w.offG : Int)
+    · rw [putLev, if_neg (by simp [hs']), if_pos ho]; exact ⟨by simp, h⟩
+    · have h2' := putCrc_hashInv cfg w body ts h
+      have hnp : (needRotate cfg (putCrc cfg w body ts) && hashSlicePanics (putCrc cfg w body ts)) = false := by
+        by_cases hr : needRotate cfg (putCrc cfg w body ts) = true
+        · simp [rotate_no_panic cfg _ h2' hr]
+        · simp [hr]
+      rw [putLev, if_neg (by simp [hs']), if_neg ho]
+      simp only [hnp, Bool.false_eq_true, if_false]
+      refine ⟨by simp, ?_⟩
+      simp only [putBody]
+      have hrot : HashInv cfg (if needRotate cfg (putCrc cfg w body ts) = true then addRotate cfg (putCrc cfg w body ts) ts h1 h2
+          else putCrc cfg w body ts) := by
+        split
+        · intro hf; simp [addRotate, appendLev] at hf
+        · exact h2'
+      split
+      · intro hf; exact hrot hf
+      · exact hrot
+
+
+/-! ### non-vacuity: concrete instances (kernel-evaluated) -/
+
+/-- a toy checksum with the streaming law (the theorems never use more about `upd`) -/
+def updT (c : UInt32) (b : Bytes) : UInt32 := b.foldl (fun a x => a * 31 + x.toUInt32) c
+
+/-- crc record every 16 bytes, no rotation -/
+def cfgT : Cfg := { upd := updT, evMagic := 0x12345, chunk := 100000, crcEvery := 16, schema := 0 }
+
+def wT : WS := { crc := 7, offG := 44, offL := 44, lastCrcPos := 44, fileStart := 0, firstFile := true, curHash := 0,
+                 buff := [], rotPos := [], asap := false, lastTs := 0, stopped := false }
+
+def evsT : List Ev := [⟨[1, 2, 3], false, 5⟩, ⟨[], true, 6⟩, ⟨[9, 9, 9, 9, 9], false, 7⟩]
+
+def sT (rest : Bytes) : RS :=
+  { pos := 44, crc := 7, rest := rest, slack := 0, dk := false, ts := 0, commitPos := 0, eng := { off := 44, evs := [], commits := [] } }
+
+example : ∀ c a b, updT (updT c a) b = updT c (a ++ b) := by intro c a b; simp [updT, List.foldl_append]
+example : ∀ c a b, crcUpdate (crcUpdate c a) b = crcUpdate c (a ++ b) := crcUpdate_append
+example : cfgT.evMagic ∉ serviceMagics := by decide
+-- the hypotheses of `replay_all` hold for this instance, a crc record IS produced (after the second event: 12 + 8 >= 16
+-- bytes), and the conclusion is what evaluation gives: three events at 44, 56 and 84 (= 56 + 8 + the 20 byte crc record)
+example : NoRotate cfgT wT evsT := ⟨by decide, by decide, by decide, trivial⟩
+example : crcPart cfgT (wnext cfgT wT ⟨[1, 2, 3], false, 5⟩) ⟨[], true, 6⟩ ≠ [] := by decide
+example : (offsets cfgT wT evsT).map (·.1) = [44, 56, 84] := by decide
+set_option maxRecDepth 20000 in
+example : ((readLoop cfgT 7 (sT (writeAll cfgT wT evsT).buff)).s.eng.evs.map (·.1)) = [84, 56, 44] := by decide
+set_option maxRecDepth 20000 in
+example : (readLoop cfgT 7 (sT (writeAll cfgT wT evsT).buff)).err = none := by decide
+
+/-- flip one bit of the first event's body (2 -> 3): both events still parse, the crc record behind them is reached (the
+    reader consumed the 20 bytes in front of it) and rejects — `crc_record_checked` with a checksum that distinguishes the
+    two byte strings -/
+def flipped : Bytes := (writeAll cfgT wT evsT).buff.set 9 3
+def sF1 : RS := afterEvent cfgT (sT flipped) [1, 3, 3] (flipped.drop 12)
+def sF2 : RS := afterEvent cfgT sF1 [] (flipped.drop 20)
+
+set_option maxRecDepth 20000 in
+example : (readLoop cfgT 7 (sT flipped)).err = some .crc := by decide
+set_option maxRecDepth 20000 in
+example : Reach cfgT (sT flipped) sF2 := .step (s' := sF1) (by decide) (.step (s' := sF2) (by decide) (.refl _))
+set_option maxRecDepth 20000 in
+example : atLeast sF2.rest levCrcSize = true ∧ rd32 sF2.rest = magicCrc := by decide
+
+/-- writer loop: an ASAP batch, a batch that only the timer flushes, a rotation (chunk 40), stop -/
+def cfgR : Cfg := { cfgT with chunk := 40, crcEvery := 65536 }
+def sys0 : Sys :=
+  { w := { wT with offG := 0, offL := 0, lastCrcPos := 0, crc := 0 },
+    l := { cur := { data := [], synced := 0 }, older := [], lastFsync := 0, dirty := false, commits := [] } }
+def opsT : List WOp :=
+  [.put 0 (encEvent 0x12345 [1, 2, 3]) true 5 11 12, .iter false false, .put 12 (encEvent 0x12345 [4]) false 5 11 12,
+   .iter false false, .iter true false, .put 24 (encEvent 0x12345 [5, 6, 7, 8, 9, 10, 11, 12, 13]) false 6 11 12,
+   .put 7 [1] false 6 0 0, .iter false true]
+
+example : CommitInv sys0 := ⟨List.Pairwise.nil, fun _ h => by cases h⟩
+example : OlderSynced sys0.l := fun _ h => by cases h
+set_option maxRecDepth 20000 in
+example : ((run cfgR sys0 opsT).l.commits.map (·.off)) = [116, 24, 12] := by decide
+set_option maxRecDepth 20000 in
+example : (run cfgR sys0 opsT).l.older.length = 1 ∧ syncedEnd (run cfgR sys0 opsT).l = 116 := by decide
+
+
+/-! ### defect fixed by fixes/C18-restart-first-chunk-hash.diff (sig=append-panic): witness on the old behaviour
+
+  Before the fix WriteLoop left hashBuff2 empty after a restart (`restoreTail := false`).  MaxChunkSize 40000, the first
+  session wrote 39664 bytes of the first chunk, the restarted writer appends a 400 byte event: the chunk is due for rotation,
+  offsetLocal = 40072 >= 2*16384-36 but hashBuff2 holds only the 408 bytes appended since the restart, so
+  `hashBuff2[len-(16384-36):]` panics.  With the fix (`restoreTail := true`, theorem `putLev_no_panic`) the same append is
+  accepted. -/
+
+def cfgP : Cfg := { cfgT with chunk := 40000, crcEvery := 65536 }
+def hdr0 : Hdr := { pos := 0, crc := 0, ts := 0, curHash := 0, data := [] }
+
+set_option maxRecDepth 20000 in
+example : (putLev cfgP (wsInit cfgP false 39664 0 hdr0 0) 39664 (List.replicate 400 0) false 0 0 0).2.1 = .panic := by decide
+set_option maxRecDepth 20000 in
+example : (putLev cfgP (wsInit cfgP true 39664 0 hdr0 0) 39664 (List.replicate 400 0) false 0 0 0).2.1 = .ok := by decide
+example : HashInv cfgP (wsInit cfgP true 39664 0 hdr0 0) := wsInit_hashInv _ _ _ _ _
+
+/-! ### known finding (sig=truncated-file-header): the full truncation statement is FALSE for the current code
+
+  Full statement (not provable): "for every binlog and every truncation point of its last file, `readAll` ends without error
+  and delivers exactly the complete events".  Witness: first chunk = LevStart + one event + ROTATE_TO (nothing missing), second
+  chunk = the first 10 bytes of its ROTATE_FROM (what a crash inside `binlogWriter.rotate` before the fsync of the new file can
+  leave).  `ScanForFilesFromPos` refuses the directory, so not even the complete event of the first chunk is replayed; with the
+  torn file removed the same event is delivered. -/
+
+def chunk0 : Bytes :=
+  le32 magicStart ++ le32 0 ++ le32 0 ++ le32 0 ++ le32 0 ++ le32 1 ++ padded (encEvent 0x12345 [1, 2, 3]) ++ encRotTo 5 72 0 1 2
+def chunk1 : Bytes := encRotFrom 5 72 0 1 2
+def eng0 : Eng := { off := 0, evs := [], commits := [] }
+
+set_option maxRecDepth 20000 in
+example : (readAll cfgT [chunk0, chunk1.take 10] 0 none 0 eng0).err = some .scan := by decide
+set_option maxRecDepth 20000 in
+example : (readAll cfgT [chunk0, chunk1.take 2] 0 none 0 eng0).err = some .scanPanic := by decide
+set_option maxRecDepth 20000 in
+example : (readAll cfgT [chunk0] 0 none 0 eng0).err = none ∧
+          (readAll cfgT [chunk0] 0 none 0 eng0).eng.evs = [(24, encEvent 0x12345 [1, 2, 3])] := by decide
+set_option maxRecDepth 20000 in
+example : (readAll cfgT [chunk0, chunk1] 0 none 0 eng0).err = none ∧
+          (readAll cfgT [chunk0, chunk1] 0 none 0 eng0).eng.evs = [(24, encEvent 0x12345 [1, 2, 3])] := by decide
+
+/-
+  NOT PROVED (full statements kept; covered by the correspondence + oracle of go/C18, thorough tier enumerates every offset):
+
+  theorem truncate_prefix : ∀ es w t, NoRotate cfg w es → … → s.rest = (produced bytes).take t → s.slack = t % 4 →
+      (readLoop cfg fuel s).err = none ∧ (readLoop cfg fuel s).s.eng.evs = ((offsets cfg w es).take (complete es t)).reverse
+    -- `readStep_event` above is already stated for an arbitrary `slack` (the cut stream), the induction over the cut point
+    -- (complete event / cut crc record / cut event) is missing.
+  theorem replay_all_rotating : the same as `replay_all` without `NoRotate`, for `readAll` over the files `writeBuffer` creates.
+  theorem commit_le_fsynced : CommitInv … → ∀ c ∈ commits, c.off ≤ base + syncedEnd l    (needs rotatePos well-formedness)
+-/
 
 end SH.C18
